@@ -75,7 +75,7 @@ def malformed(rnd, count):
 
 def check(ctx):
     ctx.rule = ("headers built by an independent Python implementation of the radiotap placement rule: every subset of the 12 decoded fields (2^12, exhaustive) and %s of all 23 defined fields of the first present word with random values, "
-                "multi-word headers (namespace reset with per-antenna signal/antenna pairs, vendor namespaces with arbitrary skip lengths, plain EXT continuation), every malformed class (version, it_len < 8, > available, > 255, truncation); "
+                "libwifi_parse_radiotap_rssi on covered headers with one, several and no antenna-signal fields; multi-word headers (namespace reset with per-antenna signal/antenna pairs, vendor namespaces with arbitrary skip lengths, plain EXT continuation), every malformed class (version, it_len < 8, > available, > 255, truncation); "
                 "each header in an exact-size heap block under ASan, output object pre-filled 0xA5; compared with the model and with the declarative Spec decode; distinct = (op, output)" % ("ALL 2^23 subsets" if ctx.tier == "thorough" else "8192 random subsets"))
     r = fw.prepare(ctx, MODULE)
     if r is None:
@@ -99,6 +99,14 @@ def check(ctx):
     else:
         fw.run_suite(ctx, exe, "S-rtp/random-subsets", subsets_lines(rnd, [rnd.getrandbits(23) for _ in range(8192)]), "radiotap decode")
     fw.run_suite(ctx, exe, "S-rtp/multiword", multiword(rnd, 3000 if ctx.tier == "quick" else 40000), "radiotap decode")
+    # libwifi_parse_radiotap_rssi reports the same signal as the full decode (the first antenna-signal field), on every
+    # header the buffer covers
+    def covered(l):
+        b = bytes.fromhex(l.split()[1]) if l.split()[1] != "-" else b""
+        return len(b) >= 8 and int.from_bytes(b[2:4], "little") <= len(b)
+    sig = [{"fields": sorted(set(rnd.sample(range(23), rnd.randrange(0, 5))) | ({5} if rnd.random() < 0.8 else set()))} for _ in range(600)]
+    rs = [l for l in multiword(rnd, 600 if ctx.tier == "quick" else 6000) + ["rtp " + hexs(rtbuild.build([w], rnd)) for w in sig] if covered(l)]
+    fw.run_suite(ctx, exe, "S-rtp/rssi", ["rssi " + l.split()[1] for l in rs], "radiotap signal shortcut")
     fw.run_suite(ctx, exe, "S-rtp/malformed", malformed(rnd, 2000 if ctx.tier == "quick" else 30000), "radiotap decode")
     # alignment is relative to the start of the header, not to the address of the capture
     mis = subsets_lines(rnd, rnd.sample(range(1 << 23), 700)) + multiword(rnd, 300)
